@@ -5,7 +5,7 @@ from harness import core, gen_deser as G
 from harness.deser_run import Producer, C_MODEL
 from harness.descr import data_real
 
-NEEDED = ["Core/Errors.v", "Deser/Model.v", "Deser/Run.v", "Deser/Unfold.v", "Deser/ErrorsProofs.v"]
+NEEDED = ["Deser/ObjErrors.v", "Core/Errors.v", "Deser/Model.v", "Deser/Run.v", "Deser/Unfold.v", "Deser/ErrorsProofs.v"]
 
 
 def multi_mutate(rng, u, t, opts):
